@@ -2,6 +2,7 @@ package engc
 
 import (
 	"fmt"
+	"os"
 	"runtime"
 	"strings"
 	"sync"
@@ -10,6 +11,7 @@ import (
 )
 
 type task struct {
+	gid     uint64 // goroutine of the task: scheduling points reached by any other goroutine pass through
 	id      int
 	name    string
 	w       word
@@ -33,18 +35,27 @@ type sched struct {
 	traceH  uint64
 	dead    bool
 	over    bool
+	thin    int // one in `thin` inserted points is a real scheduling point (per run)
 }
 
 //go:norace
 func newSched(seed uint64) *sched {
-	return &sched{rng: kernel.NewRng(seed), traceH: 1469598103934665603, maxStep: 20000}
+	s := &sched{rng: kernel.NewRng(seed), traceH: 1469598103934665603, maxStep: 20000}
+	s.thin = []int{2, 4, 8, 8, 16, 32}[s.rng.Intn(6)]
+	return s
 }
 
 //go:norace
 func (s *sched) spawn(name string, fn func()) *task {
 	t := &task{id: len(s.tasks), name: name, fn: fn}
 	s.tasks = append(s.tasks, t)
-	go s.body(t)
+	ready := make(chan struct{})
+	go func() {
+		t.gid = curGID() // known before anybody can be taken for this task
+		close(ready)
+		s.body(t)
+	}()
+	<-ready
 	return t
 }
 
@@ -101,6 +112,9 @@ func (s *sched) run() {
 		s.steps++
 		s.mixInt(uint64(t.id))
 		s.cur = t
+		if traceSites {
+			println("  pick", t.name, "waiting", t.waiting)
+		}
 		t.w.unpark()
 		s.main.park()
 	}
@@ -115,6 +129,17 @@ func (s *sched) yield(site string) {
 		return
 	}
 	t := s.cur
+	if t.gid != 0 && curGID() != t.gid {
+		return // a goroutine the library started by itself (handlers): not a task
+	}
+	if s.thin > 1 && len(site) > 2 && site[0] == 'i' && site[1] == ':' {
+		// Inserted points (cmd/instr) are everywhere; handing the baton over at each of them would make
+		// runs an order of magnitude longer. The running task - the only one running, so the draw is
+		// part of the deterministic schedule - turns one in `thin` of them into a real scheduling point.
+		if s.rng.Intn(s.thin) != 0 {
+			return
+		}
+	}
 	s.mixStr(site)
 	if traceSites {
 		println("  ", t.name, site)
@@ -123,7 +148,7 @@ func (s *sched) yield(site string) {
 	t.w.park()
 }
 
-var traceSites bool
+var traceSites = os.Getenv("VERIF_TRACE_SITES") != ""
 
 // beforeLock waits (yielding) until the lock can be taken; then the caller's own Lock() cannot block.
 //
@@ -164,6 +189,45 @@ func (s *sched) beforeLock(mu interface{}, write bool) {
 			panic(abandon{})
 		}
 	}
+}
+
+// beforeTry is beforeLock for any lock object: try reports whether it could be taken right now.
+//
+//go:norace
+func (s *sched) beforeTry(try func() bool) {
+	if !s.active || s.cur == nil {
+		return
+	}
+	t := s.cur
+	if t.gid != 0 && curGID() != t.gid {
+		return
+	}
+	for {
+		if try() {
+			t.waiting = false
+			s.stall = 0
+			return
+		}
+		t.waiting = true
+		s.stall++
+		s.yield("lock.wait")
+		if s.dead || s.over {
+			panic(abandon{})
+		}
+	}
+}
+
+// curGID reads the id of the calling goroutine from its stack header ("goroutine 123 [").
+//
+//go:norace
+func curGID() uint64 {
+	var buf [40]byte
+	n := runtime.Stack(buf[:], false)
+	var id uint64
+	for i := len("goroutine "); i < n && buf[i] >= '0' && buf[i] <= '9'; i++ {
+		id = id*10 + uint64(buf[i]-'0')
+	}
+	return id
 }
 
 type abandon struct{}
